@@ -237,6 +237,11 @@ Apply(s, op, a) ==
               IF ch # "ok" THEN Res(s, Err(ch))
               ELSE IF a.count > a.room THEN Res(s, Err("IOError"))
               ELSE Res(s, OkD(a.count, Sub(s.mem, O + a.addr, a.count)))
+    [] op = "write_to_bad_fd" ->        \* descriptor write that fails: guest memory was only read - nothing is marked
+         IF ~IsSlice(c) THEN Res(s, Skip)
+         ELSE IF ChkOff(L, a.addr) # "ok" THEN Res(s, Err(ChkOff(L, a.addr)))
+         ELSE IF Min(L - a.addr, a.count) = 0 THEN Res(s, Skip)      \* an empty write to a bad descriptor: the kernel's call
+         ELSE Res(s, Err("IOError"))
     [] op = "read_from_bad_fd" ->       \* descriptor read that fails: marks its whole target
          IF ~IsSlice(c) THEN Res(s, Skip)
          ELSE IF ChkOff(L, a.addr) # "ok" THEN Res(s, Err(ChkOff(L, a.addr)))
@@ -331,6 +336,7 @@ WriteAllVolatileTo == \E x \in OffVals, n \in CntVals : Step("write_all_volatile
 WriteToCursor == \E x \in OffVals, n \in CntVals, k \in {0, 2} : Step("write_to_cursor", [addr |-> x, count |-> n, room |-> k])
 WriteAllToCursor == \E x \in OffVals, n \in CntVals, k \in {0, 2} : Step("write_all_to_cursor", [addr |-> x, count |-> n, room |-> k])
 ReadFromBadFd == \E x \in OffVals, n \in CntVals : Step("read_from_bad_fd", [addr |-> x, count |-> n])
+WriteToBadFd == \E x \in OffVals, n \in CntVals : Step("write_to_bad_fd", [addr |-> x, count |-> n])
 RefStore   == st.cur.kind = "ref" /\ Step("ref_store", [buf |-> Tag(st.cur.len)])
 RefLoad    == Step("ref_load", [x |-> 0])
 ArrLoad    == \E i \in NVals : Step("arr_load", [i |-> i])
@@ -358,7 +364,7 @@ Derivations == \/ Subslice \/ GetSlice \/ Offset \/ SplitAt \/ GetRef \/ GetArra
 Queries     == \/ ComputeEndOffset \/ LenQ \/ PtrGuard \/ GetAtomicRef \/ AlignedAsRef
 DataOps     == \/ Write \/ Read \/ WriteSlice \/ ReadSlice \/ WriteObj \/ ReadObj \/ Store \/ Load
                \/ CopyTo \/ CopyFrom \/ CopyToVS \/ ReadVolatileFrom \/ ReadExactVolatileFrom
-               \/ WriteVolatileTo \/ WriteAllVolatileTo \/ WriteToCursor \/ WriteAllToCursor \/ ReadFromBadFd
+               \/ WriteVolatileTo \/ WriteAllVolatileTo \/ WriteToCursor \/ WriteAllToCursor \/ ReadFromBadFd \/ WriteToBadFd
                \/ RefStore \/ RefLoad \/ ArrLoad \/ ArrStore \/ ArrCopyTo \/ ArrCopyFrom \/ ArrCopyToVS
                \/ BitmapReset
 
@@ -395,7 +401,7 @@ DirtyConfined ==
                 /\ \E i \in last'.a.to .. last'.a.to + last'.a.tc - 1 : i \div st.P = p) ]_vars
 ReadsMarkNothing ==
     [][ last'.op \in {"read", "read_slice", "read_obj", "load", "copy_to", "write_volatile_to",
-                      "write_all_volatile_to", "write_to_cursor", "write_all_to_cursor", "ref_load", "arr_load", "arr_copy_to", "ptr_guard", "len",
+                      "write_all_volatile_to", "write_to_cursor", "write_all_to_cursor", "write_to_bad_fd", "ref_load", "arr_load", "arr_copy_to", "ptr_guard", "len",
                       "compute_end_offset", "get_atomic_ref", "aligned_as_ref", "subslice", "get_slice",
                       "offset", "split_at", "get_ref", "get_array_ref", "to_slice", "ref_at",
                       "array_from_slice", "as_volatile_slice", "root"}
